@@ -200,6 +200,9 @@ def header_regex(spec):
     toks = spec.split()
     kind = toks[0]
     esc = lambda s: re.sub(r'\\ ', r'\\s+', re.escape(s))
+    if kind == 'top' and len(toks) >= 3 and toks[1] == 'fn':
+        # a free function at column 0 (distinguishes `pub fn reduce<T>` from trait / impl methods of the same name)
+        return r'^(?:pub(?:\([a-z]+\))?\s+)?(?:const\s+)?(?:async\s+)?fn\s+' + re.escape(toks[2]) + r'\b'
     if kind == 'fn':
         return r'^[ \t]*(?:pub(?:\([a-z]+\))?\s+)?(?:const\s+)?(?:async\s+)?fn\s+' + re.escape(toks[1]) + r'\b'
     if kind in ('struct', 'enum', 'trait', 'type', 'const', 'static'):
